@@ -39,12 +39,21 @@ def neighbor_scale(ctx, I, sizes, budget):
         else:
             prov = None
         util = I["utility"].SklearnModelAccuracy(KNeighborsClassifier(n_neighbors=1))
+        sh = I["shapley"]
+        old_B = sh.BATCH_DISTANCE_MATRIX_SIZE
+        small_B = rng.random() < 0.34
+        if small_B:
+            sh.BATCH_DISTANCE_MATRIX_SIZE = n_rows * max(m // 4, 1)     # would give ~4 validation batches if batching were live
+        Xv_idx = np.hstack([np.arange(m, dtype=float).reshape(-1, 1), Xv])      # validation rows carry their index for the distance callable
         try:
-            imp = I["imp"].ShapleyImportance(method="neighbor", utility=util, nn_distance=lambda A, B, D=D: D.copy())
-            scores = np.asarray(imp.fit(X, y, provenance=prov).score(Xv, yv), dtype=float)
+            imp = I["imp"].ShapleyImportance(method="neighbor", utility=util,
+                                             nn_distance=lambda A, B, D=D: D[:, np.asarray(B)[:, 0].astype(int)].copy())
+            scores = np.asarray(imp.fit(X, y, provenance=prov).score(Xv_idx, yv), dtype=float)
         except Exception as e:  # noqa
             ctx.mismatch("score() raised at scale", dict(n_rows=n_rows, m=m, mode=mode), impl=exc_name(e) + repr(e))
             continue
+        finally:
+            sh.BATCH_DISTANCE_MATRIX_SIZE = old_B
         nearest = np.argmin(D, axis=0)
         hits = int(np.sum(y[nearest] == yv))
         classes = sorted(set(y.tolist()))
@@ -55,7 +64,7 @@ def neighbor_scale(ctx, I, sizes, budget):
         err = abs(total - exact)
         errs.append((n_rows, float(err)))
         ctx.case(("scale", n_rows, m, mode, hits), nontrivial=(exact != 0), sample=dict(n_rows=n_rows, m=m, classes=c, mode=mode, exact=str(exact), got=float(total)),
-                 part="neighbor-scale", mode=mode, class_absent_from_validation=absent)
+                 part="neighbor-scale", mode=mode, class_absent_from_validation=absent, small_batch_constant=small_B)
         ctx.maxi(rows=n_rows, val_points=m, classes=c)
         if not np.all(np.isfinite(scores)) or err > Fraction(1, 10 ** 9) * 2:
             ctx.mismatch("neighbor scores do not sum to full-data utility minus null utility", dict(n_rows=n_rows, m=m, classes=c, mode=mode, rng="np.RandomState from VERIF_SEED"),
